@@ -3,6 +3,7 @@
 //! the specification.
 
 mod queue;
+mod status;
 mod util;
 
 fn main() {
@@ -12,6 +13,8 @@ fn main() {
     let code = match cmd {
         "queue-edges" => queue::replay_edges(rest),
         "queue-trace" => queue::record_trace(rest),
+        "status-edges" => status::replay_edges(rest),
+        "status-trace" => status::record_trace(rest),
         _ => {
             eprintln!("unknown command {cmd:?}");
             2
